@@ -31,7 +31,18 @@ func (w *world) pickTopic(sel int64, pk []byte) string {
 
 func (w *world) senderOp(sel int64) (op int, claimed uint64) {
 	op = int(sel%int64(strangerOp)) + 1
-	return op, uint64(op)
+	claimed = uint64(op)
+	// the operator id the envelope claims: mostly the signer's; sometimes one of three ids that are
+	// registered nowhere - the SAME three in every message, so that the validator meets them repeatedly
+	switch (sel / 16) % 8 {
+	case 5:
+		claimed = uint64(unregisteredK) + 1
+	case 6:
+		claimed = 0
+	case 7:
+		claimed = ^uint64(0)
+	}
+	return op, claimed
 }
 
 // rawStep: random bytes at one of four depths. S[0] = hex bytes. A = [depth, topicSel, vi, opSel, typ, role].
